@@ -147,6 +147,9 @@ pub fn added_order(op: COp, tid: usize) -> Ord_ {
 pub struct Program {
     pub book: Book,
     pub threads: Vec<Vec<COp>>,
+    /// threads scheduled only between their API calls (whole calls are atomic); empty = all fine-grained
+    #[serde(default)]
+    pub coarse: Vec<bool>,
 }
 
 impl Program {
@@ -156,7 +159,14 @@ impl Program {
             self.book,
             self.threads
                 .iter()
-                .map(|t| t.iter().map(|o| format!("{o:?}")).collect::<Vec<_>>().join(";"))
+                .enumerate()
+                .map(|(i, t)| {
+                    format!(
+                        "{}{}",
+                        if self.coarse.get(i).copied().unwrap_or(false) { "call-atomic:" } else { "" },
+                        t.iter().map(|o| format!("{o:?}")).collect::<Vec<_>>().join(";")
+                    )
+                })
                 .collect::<Vec<_>>()
                 .join(" || ")
         )
@@ -384,8 +394,15 @@ pub fn execute(prog: &Program, prefix: &[u8], cfg: &ExecCfg) -> Exec {
     for (tid, ops) in prog.threads.iter().enumerate() {
         let sh = shared.clone();
         let ops = ops.clone();
+        let coarse = prog.coarse.get(tid).copied().unwrap_or(false);
         bodies.push(Box::new(move || {
+            if coarse {
+                sched::set_coarse(tid, true);
+            }
             for (i, op) in ops.iter().enumerate() {
+                if coarse {
+                    sched::yield_point();
+                }
                 sched::set_cur_op(tid, i as u8);
                 let r = std::panic::catch_unwind(std::panic::AssertUnwindSafe(|| {
                     run_op(&sh, tid, *op)
@@ -1373,6 +1390,7 @@ pub fn programs_1op(k: usize, books: &[Book], alphabet: &[COp]) -> Vec<Program> 
             out.push(Program {
                 book: *b,
                 threads: c.iter().map(|o| vec![*o]).collect(),
+                coarse: vec![],
             });
         }
     }
@@ -1398,6 +1416,7 @@ pub fn programs_2x2(books: &[Book], alphabet: &[COp]) -> Vec<Program> {
                 out.push(Program {
                     book: *b,
                     threads: vec![seqs[i].clone(), seqs[j].clone()],
+                    coarse: vec![],
                 });
             }
         }
@@ -1457,4 +1476,39 @@ pub fn run_real_threads(prog: &Program) -> u64 {
         })
         .collect();
     hash64(&(recs, q.vis, q.hid, q.count, res))
+}
+
+
+/// "victim" programs: thread 0 issues one operation and is scheduled at every shared-memory step; thread 1 issues a
+/// sequence of `len` operations and is scheduled only between them (each of its calls is atomic)
+pub fn programs_victim(books: &[Book], victim_ops: &[COp], other_ops: &[COp], len: usize) -> Vec<Program> {
+    let mut seqs: Vec<Vec<COp>> = vec![vec![]];
+    for _ in 0..len {
+        let mut next = vec![];
+        for s in &seqs {
+            for o in other_ops {
+                // a thread adds at most once (one private id per thread)
+                if matches!(o, COp::Add | COp::AddIce) && s.iter().any(|x| matches!(x, COp::Add | COp::AddIce)) {
+                    continue;
+                }
+                let mut n = s.clone();
+                n.push(*o);
+                next.push(n);
+            }
+        }
+        seqs = next;
+    }
+    let mut out = vec![];
+    for b in books {
+        for v in victim_ops {
+            for s in &seqs {
+                out.push(Program {
+                    book: *b,
+                    threads: vec![vec![*v], s.clone()],
+                    coarse: vec![false, true],
+                });
+            }
+        }
+    }
+    out
 }
